@@ -132,7 +132,8 @@ def mutants(argv):
             caught = p.returncode == 1 and "VIOLATION property=" in p.stdout
             if name in expect_pass:
                 ok = p.returncode == 0
-                print(f"{name}: {'PASSES AS EXPECTED (neutralised change)' if ok else 'UNEXPECTED rc=%d' % p.returncode} in {dt:.0f}s")
+                why = json.loads((VERIF / name / "meta.json").read_text()).get("expect_why", "neutralised change") if name.startswith("seeded/") else "neutralised change"
+                print(f"{name}: {'PASSES AS EXPECTED (' + why + ')' if ok else 'UNEXPECTED rc=%d' % p.returncode} in {dt:.0f}s")
                 results[name] = "passes as expected" if ok else f"unexpected rc={p.returncode}"
                 if not ok:
                     rc = 1
